@@ -19,7 +19,7 @@ import sys
 
 import vlib
 
-LEVEL = "partial"
+LEVEL = "proof"
 
 MODULE = "github.com/newrelic/newrelic-php-agent/daemon/"
 HARNESS_FILE = "zz_verif_c17_test.go"
